@@ -354,6 +354,34 @@ std::string cmdTime(const std::string& dateFmt, const binlog::ClockSync& cs, std
   return "local=" + printWith("%d", dateFmt, cs, clock) + " utc=" + printWith("%u", dateFmt, cs, clock);
 }
 
+// ONE pretty printer per field (%d, %u) prints a sequence of instants, each under its own clock sync
+std::string cmdTimeSeq(const std::string& dateFmt, const std::vector<std::pair<binlog::ClockSync, std::uint64_t>>& items)
+{
+  binlog::PrettyPrinter ppLocal("%d", dateFmt);
+  binlog::PrettyPrinter ppUtc("%u", dateFmt);
+  std::string locals, utcs;
+  for (std::size_t i = 0; i < items.size(); ++i)
+  {
+    binlog::EventSource src;
+    binlog::Event ev;
+    ev.source = &src;
+    ev.clockValue = items[i].second;
+    binlog::WriterProp wp;
+    if (i) { locals += ','; utcs += ','; }
+    {
+      std::ostringstream out;
+      try { ppLocal.printEvent(out, ev, wp, items[i].first); locals += hex(out.str()); }
+      catch (const std::exception& ex) { locals += "ERR:" + errKind(ex); }
+    }
+    {
+      std::ostringstream out;
+      try { ppUtc.printEvent(out, ev, wp, items[i].first); utcs += hex(out.str()); }
+      catch (const std::exception& ex) { utcs += "ERR:" + errKind(ex); }
+    }
+  }
+  return "local=" + locals + " utc=" + utcs;
+}
+
 // the loop of printEvents / printSortedEvents with per-event buffering, so that the partial text of
 // an event whose printing throws can be told apart from the complete events
 // ONE TextOutputStream, write() called once per chunk (exceptions caught per call): the text on the output and the
@@ -419,6 +447,20 @@ int main()
       {
         std::string f; binlog::ClockSync cs;
         if (unhex(w[1], f) && parseClockSync(w[2], cs)) { r = cmdTime(f, cs, std::stoull(w[3])); }
+      }
+      else if (w.size() >= 3 && w[0] == "timeseq")
+      {
+        std::string f;
+        bool okc = unhex(w[1], f);
+        std::vector<std::pair<binlog::ClockSync, std::uint64_t>> items;
+        for (std::size_t i = 2; i < w.size() && okc; ++i)
+        {
+          const std::vector<std::string> ck = split(w[i], '/');
+          binlog::ClockSync cs;
+          if (ck.size() != 2 || ! parseClockSync(ck[0], cs)) { okc = false; break; }
+          items.emplace_back(cs, std::stoull(ck[1]));
+        }
+        if (okc) { r = cmdTimeSeq(f, items); }
       }
       else if (w.size() == 5 && w[0] == "bread")
       {
